@@ -49,6 +49,7 @@ type CScenario struct {
 	SkipAlone  bool        `json:"skip_alone,omitempty"`
 	Typed      bool        `json:"typed,omitempty"`
 	Prefix     string      `json:"prefix,omitempty"`
+	Override   bool        `json:"override,omitempty"`
 }
 
 type CRecord struct {
@@ -69,18 +70,19 @@ type CRecord struct {
 }
 
 type CResult struct {
-	Aborted     bool       `json:"aborted,omitempty"`
-	ID          string     `json:"id"`
-	Alone       []*CRecord `json:"alone,omitempty"`
-	Conc        []*CRecord `json:"conc"`
-	Deadlock    string     `json:"deadlock,omitempty"`
-	ToolTrouble string     `json:"tool_trouble,omitempty"`
-	Yields      int        `json:"yields"`
-	SyncPoints  int        `json:"sync_points"`
-	SyncYields  int        `json:"sync_yields"`
-	SchedHash   string     `json:"sched_hash"`
-	Switches    int        `json:"switches"`
-	FakeNS      int64      `json:"fake_ns"`
+	Aborted      bool       `json:"aborted,omitempty"`
+	ID           string     `json:"id"`
+	Alone        []*CRecord `json:"alone,omitempty"`
+	Conc         []*CRecord `json:"conc"`
+	Deadlock     string     `json:"deadlock,omitempty"`
+	InputChanged string     `json:"input_changed,omitempty"`
+	ToolTrouble  string     `json:"tool_trouble,omitempty"`
+	Yields       int        `json:"yields"`
+	SyncPoints   int        `json:"sync_points"`
+	SyncYields   int        `json:"sync_yields"`
+	SchedHash    string     `json:"sched_hash"`
+	Switches     int        `json:"switches"`
+	FakeNS       int64      `json:"fake_ns"`
 
 	Races   []string `json:"-"`
 	Missing bool     `json:"-"`
